@@ -139,7 +139,7 @@ theorem inv_reset_destroy (c : Cfg) (ar aq : Nat) (s : S) (k : Nat) (r : Reason)
     · intro hh; exact absurd hh (by simp [how])
     · intro _ hp; exact absurd hp hnr
     · intro _ _ _; left; simp [upOnResetStream, hsr]
-    · intro _ _ _; right; left; simp [upOnResetStream, hsr]
+    · intro _ _; right; left; simp [upOnResetStream, hsr]
 
 theorem inv_upReset (c : Cfg) (ar aq : Nat) (s : S) (k : Nat) (r : Reason) (h : Inv c ar aq s) :
     Inv c ar aq (upResetL c s k r) := by
@@ -297,7 +297,7 @@ theorem inv_perTryFire (c : Cfg) (ar aq : Nat) (s : S) (h : Inv c ar aq s) : Inv
           have := (k26 hcl (by simpa [upOnResetStream, orFlag] using hp)).1
           simp [this] at hpt
         · intro _ _ _; left; simp [upOnResetStream, orFlag, hsr]
-        · intro _ _ _; left; simp [upOnResetStream, orFlag]
+        · intro _ _; left; simp [upOnResetStream, orFlag]
         · simpa [K29, upOnResetStream, orFlag] using k29
         · intro _ hp
           have := (k30 hcl (by simpa [upOnResetStream, orFlag] using hp)).2.2.1
@@ -377,7 +377,7 @@ theorem inv_globalFire (c : Cfg) (ar aq : Nat) (s : S) (h : Inv c ar aq s) : Inv
             have := (k26 hcl (by simpa [upOnResetStream] using hp)).1
             exact ⟨by simpa [upOnResetStream] using this, fun _ => by simp [upOnResetStream]⟩
           · intro _ _ _; left; simp [upOnResetStream, hsr]
-          · intro _ _ _; left; simp [upOnResetStream]
+          · intro _ _; left; simp [upOnResetStream]
           · simpa [K29, upOnResetStream] using k29
           · intro _ hp
             have := (k30 hcl (by simpa [upOnResetStream] using hp)).2.2.2.1
